@@ -132,23 +132,79 @@ def trailer(facts, res):
     te = sympy.expand(symx(facts, kids(tot[0])[0]))
     payload = [s for s in te.free_symbols if "NbBlocks" in str(s) and "second" in str(s)]
     res.instance(R, "allocation-size", facts.loc(tot[0]), str(te))
-    if len(payload) != 1 or sympy.simplify(te - payload[0] - 2 * want) != 0:
-        res.violation(R, f, w["qname"], "allocation-size", tot[0]["l"][1], "allocation size %s is not payload end + two tables of sizeof(long)*NbBlocks" % te)
-    # block pointers = base + recorded offset, in both
+    slack = sympy.expand(te - payload[0] - 2 * want) if len(payload) == 1 else None
+    # the allocation must hold the payload and both tables; extra bytes (all sizes / constants are positive quantities) are harmless slack
+    if slack is None or not (slack == 0 or all(c > 0 for c in slack.as_coefficients_dict().values())):
+        res.violation(R, f, w["qname"], "allocation-size", tot[0]["l"][1], "allocation size %s does not cover payload end + two tables of sizeof(long)*NbBlocks" % te)
+    # block pointers = base + recorded offset, in both; the layout may depend on the buffer's CONTENT only, never on its address
+    def base_of(fn, n, depth=0):
+        """('base', None) when n is the buffer's base pointer (member, through pointer locals); ('addr', site) when its value
+        was computed from the numeric address of the base pointer (pointer -> integer cast in a helper it went through)"""
+        n = strip(n)
+        if n is None or depth > 6:
+            return ("?", n)
+        k = n.get("k")
+        if k == "MemberExpr" and n.get("dk") == "Field":
+            return ("base", n["name"])
+        if k in ("CXXReinterpretCastExpr", "CXXStaticCastExpr", "CStyleCastExpr", "CXXConstCastExpr") and kids(n):
+            return base_of(fn, kids(n)[0], depth + 1)
+        if k == "DeclRefExpr" and n.get("dk") == "Var":
+            d = local_decl(facts, n["did"])
+            if d is not None and kids(d):
+                return base_of(fn, kids(d)[0], depth + 1)
+        if k in ("CallExpr", "CXXMemberCallExpr"):
+            args = tbf.call_args(n)
+            nm = tbf.callee_name(n)
+            cands = [g for g in facts.functions if g["name"] == nm and not g.get("inst") and tbf.body(g) is not None and len(g["params"]) == len(args)]
+            for a in args:
+                b0 = base_of(fn, a, depth + 1)
+                if b0[0] == "base":
+                    for g in cands:
+                        for y in walk(tbf.body(g)):
+                            if y.get("k") in ("CXXReinterpretCastExpr", "CStyleCastExpr") and re.search(r"(uintptr_t|intptr_t|size_t|unsigned long|long)\s*$", (y.get("tw") or y.get("t") or "")) \
+                                    and "*" in (strip(kids(y)[0]).get("t") or ""):
+                                return ("addr", y)
+                    if len(cands) == 1:
+                        rs = [y for y in walk(tbf.body(cands[0])) if y.get("k") == "ReturnStmt" and kids(y)]
+                        if len(rs) == 1:
+                            r0 = strip(kids(rs[0])[0])
+                            if r0.get("k") == "DeclRefExpr" and r0.get("did") == cands[0]["params"][args.index(a)]["did"]:
+                                return b0
+                    return ("?", n)
+        if k in ("CXXReinterpretCastExpr", "CStyleCastExpr") and "*" not in (n.get("tw") or n.get("t") or "*"):
+            return ("addr", n)
+        return ("?", n)
+
     for who, fn in (("writer", w), ("reader", r)):
-        ok = False
+        seen = 0
         for x in walk(tbf.body(fn)):
             if x.get("k") == "BinaryOperator" and x.get("op") == "=":
                 l = strip(kids(x)[0])
                 if l.get("k") == "ArraySubscriptExpr" and strip(kids(l)[0]).get("name") == "blockRawPtrs":
-                    t = facts.ntext(kids(x)[1])
+                    seen += 1
+                    rhs = strip(kids(x)[1])
+                    t = facts.ntext(rhs)
                     idx = facts.ntext(kids(l)[1])
-                    ok = t == "&rawMemoryPtr[offsetOfBlocksForPtrs[%s]]" % idx
                     res.instance(R, "block-pointer/" + who, facts.loc(x), t)
-                    if not ok:
+                    bexp = oexp = None
+                    if rhs.get("k") == "UnaryOperator" and rhs.get("op") == "&" and strip(kids(rhs)[0]).get("k") == "ArraySubscriptExpr":
+                        bexp, oexp = kids(strip(kids(rhs)[0]))
+                    elif rhs.get("k") == "BinaryOperator" and rhs.get("op") == "+":
+                        bexp, oexp = kids(rhs)
+                    if bexp is None:
+                        raise AnalysisBroken("%s: block pointer `%s` is not of the form base + offset" % (fn["qname"], t[:80]))
+                    kind, what = base_of(fn, bexp)
+                    if kind == "addr":
+                        res.violation(R, tbf.rel(facts.path_of(fn)), fn["qname"], "block-pointer-address-dependent", x["l"][1],
+                                      "block pointer '%s' starts from a value computed from the numeric ADDRESS of the buffer (%s at %s): where the blocks sit then depends on where the buffer lies, "
+                                      "and a byte copy at an address with another residue is read at shifted positions" % (t[:80], facts.ntext(what)[:60], facts.loc(what)))
+                        continue
+                    if kind != "base" or what != "rawMemoryPtr":
+                        raise AnalysisBroken("%s: base of the block pointer `%s` not understood" % (fn["qname"], t[:80]))
+                    if facts.ntext(oexp) != "offsetOfBlocksForPtrs[%s]" % idx:
                         res.violation(R, tbf.rel(facts.path_of(fn)), fn["qname"], "block-pointer", x["l"][1], "block pointer is '%s', not base + recorded offset of the same block" % t)
-        if not ok and who == "reader":
-            raise AnalysisBroken("initHeader: block pointer assignment not found")
+        if not seen:
+            raise AnalysisBroken("%s: block pointer assignment not found" % fn["qname"])
     # recorded values: counts come from the argument, offsets from the computed table, same block index on both sides
     sizes_param = w["params"][0]["did"]
     table = [v for v in walk(tbf.body(w)) if v.get("k") == "VarDecl" and kids(v) and tbf.callee_name(strip(kids(v)[0])) == "GetSizeAndOffsetOfBlocks"]
